@@ -21,6 +21,8 @@ RULE = ('Hypothesis-generated histories: 1-3 Transform2D and 1-3 Transform3D ins
         'for non-numbers is identical to - a read of the property right afterwards; nobody else logged '
         'anything; constructor values read back the same way; other instances are unaffected. '
         'In ~19% of the cases a subscription is followed by listener churn: 64-150 short-lived listeners come and go on that transform (a window of eight stays alive). '
+        ''
+        '2D rotations include angles whose reduction modulo 360 is not a fixed point in floating point (-1e-15, -5e-324). '
         'Non-trivial = a '
         '2D rotation outside [0, 360) assigned with >= 1 rotation listener, or >= 2 transforms sharing a '
         'listener. Distinct = sha1 of canonical JSON.')
